@@ -8,7 +8,7 @@
     [nan_num k v = false]. *)
 From Coq Require Import List NArith ZArith Bool Lia.
 From PQ Require Import Base.Bytes Search.Model Search.Proofs
-     Stats.Order Stats.OrderProofs Stats.Model Stats.Proofs Stats.Instances Stats.Kinds.
+     Stats.Order Stats.OrderProofs Stats.Model Stats.Proofs Stats.Instances Stats.Kinds Stats.Decimal.
 Import ListNotations.
 Open Scope Z_scope.
 
@@ -255,16 +255,38 @@ Print Assumptions C05_int96_order_is_signed.
 Print Assumptions C05_be128_order_is_lexicographic.
 Print Assumptions C05_float_order_is_sign_magnitude.
 
-(** * What is not proved *)
-(** Binary DECIMAL columns (type_decimal.go: signed big-endian two's complement
-    of varying length, never truncated) are in the model and in the
-    correspondence; [cmp_decimal] is not proved to be a total preorder, so for
-    them only alignment and counts are theorems.  The full statement: *)
-Definition C05_full_statement : Prop :=
-  forall (k : bytekind) (limit : Z) ps, byte_pages_ok k ps ->
-    let ci := index_byte k limit ps in
-    (ci_order ci = 1 -> ascending_nonnull bytes (cmp_byte k) (to_search_index ci)) /\
-    (ci_order ci = 2 -> ascending_nonnull bytes (fun a b => cmp_byte k b a) (to_search_index ci)).
+(** * Binary DECIMAL columns (type_decimal.go) *)
+
+(** compareDecimalByteArrays on big-endian two's-complement strings of any
+    lengths (empty = 0) is the order of the integers they denote *)
+Theorem C05_decimal_order_is_signed : forall a b, wf_bytes a -> wf_bytes b ->
+  cmp_decimal a b = cmpZ (dec_val a) (dec_val b).
+Proof. exact cmp_decimal_val. Qed.
+
+(** decimalPage.Bounds ([sw = false]) and decimalDictionary.Bounds ([sw = true]) *)
+Theorem C05_page_bounds_sound_decimal : forall (sw : bool) (l : list bytes) (mn mx : bytes),
+  Forall wf_bytes l -> page_bounds cmp_decimal (fun _ => false) sw l = Some (mn, mx) ->
+  (forall v, In v l -> cmp_decimal mn v <= 0 /\ cmp_decimal v mx <= 0) /\ In mn l /\ In mx l.
+Proof. exact decimal_page_bounds_sound. Qed.
+
+(** decimalColumnIndexer: never truncated, order by orderOfDecimalBytes *)
+Theorem C05_boundary_order_true_decimal : forall (limit : Z) ps, Forall dec_page_ok ps ->
+  let ci := index_byte BDecimal limit ps in
+  (ci_order ci = 1 -> ascending_nonnull bytes cmp_decimal (to_search_index ci)) /\
+  (ci_order ci = 2 -> ascending_nonnull bytes (fun a b => cmp_decimal b a) (to_search_index ci)).
+Proof. exact decimal_boundary_order_nonnull. Qed.
+
+Theorem C05_skip_safe_decimal : forall (sw : bool) (limit : Z) (pages : list (list (option bytes))) p vals v,
+  (forall vs x, In vs pages -> In (Some x) vs -> wf_bytes x) ->
+  nth_error pages p = Some vals -> In (Some v) vals ->
+  may_skip cmp_decimal
+    (index_byte BDecimal limit (map (page_of_values cmp_decimal (fun _ => false) sw) pages)) p v = false.
+Proof. exact decimal_skip_safe. Qed.
+
+Print Assumptions C05_decimal_order_is_signed.
+Print Assumptions C05_page_bounds_sound_decimal.
+Print Assumptions C05_boundary_order_true_decimal.
+Print Assumptions C05_skip_safe_decimal.
 
 (** * Non-vacuity *)
 Definition f32 (s : bool) (e m : N) : N := ((if s then 2 ^ 31 else 0) + e * 2 ^ 23 + m)%N.
@@ -334,6 +356,19 @@ Example C05_ex_flba_index :
      ci_min_values := [[1]; [0]; [2]]%N;
      ci_max_values := [[255; 3]; [1]; [255; 255]]%N;
      ci_order := 0 |}.
+Proof. vm_compute. reflexivity. Qed.
+
+(* binary decimals: -1 (ff) < 0 (empty) < 1 (00 01) < 256 (01 00); a null page in between *)
+Example C05_ex_decimal_index :
+  index_byte BDecimal 4
+    [ {| pi_num_values := 2; pi_num_nulls := 0; pi_bounds := Some ([255], [])%N |};
+      {| pi_num_values := 1; pi_num_nulls := 1; pi_bounds := None |};
+      {| pi_num_values := 2; pi_num_nulls := 0; pi_bounds := Some ([0; 1], [1; 0])%N |} ] =
+  {| ci_null_pages := [false; true; false];
+     ci_null_counts := [0; 1; 0];
+     ci_min_values := [[255]; []; [0; 1]]%N;
+     ci_max_values := [[]; []; [1; 0]]%N;
+     ci_order := 1 |}.
 Proof. vm_compute. reflexivity. Qed.
 
 (** * The code before the repairs violates the statements *)
